@@ -56,6 +56,12 @@ def failing_bodies():
                       "global (gopanic, gopanicnil, goindex, goerr, callfn, callfnp)\nhits := 0\nfin := 0\nvar deep\ndeep = func(n) { return [n, deep(n + 1)] }\n"
                       "f := func(c) { try { %s } catch { hits++ } finally { fin++ }; return c }\n"
                       "a := %s(f, 7)\nb := f(8)\ng := func(c) { return %s(f, c) + 1 }\nd := %s(g, 1)\nreturn [a, b, d, hits, fin]" % (fail, via, via, via)))
+    # a frame re-used by a discarded self call in tail position is left by a Go panic, a thrown error or a runtime error:
+    # functions called afterwards (same run, after a catch; the follow-up run) still return their values
+    for k, fail in enumerate(["gopanic()", "throw \"x\"", "[1][n + 5]", "goindex()", "gopanicmap()"]):
+        B.append(("tail-discard-left-%d" % k, "global (gopanic, goindex, gopanicmap)\nvar f\nf = func(n) { if n == 0 { %s }; f(n - 1) }\nf(2)\nreturn 1" % fail))
+        B.append(("tail-discard-then-call-%d" % k, "global (gopanic, goindex, gopanicmap)\nvar f\nf = func(n) { if n == 0 { %s }; f(n - 1) }\nh := func() { try { f(3) } catch { return 7 } }\n"
+                  "a := h()\ng := func(v) { return v + 40 }\nreturn [a, g(2), h(), g(3)]" % fail))
     B.append(("callback-panic-in-loop-try", "global gopanic\nout := []\nfor i := 0; i < 3; i++ { try { gopanic() } catch e { out = append(out, i) } }\nreturn out"))
     return B
 
@@ -117,6 +123,10 @@ def run(rep, br, proofs, rng, tier):
             want = {"3": "(a (b 1) (i 2) (b 1))", "4": "(a (b 1) (i 100) (b 1))"}.get(c["name"][-1], "(a (b 1) (i 1) (b 1))")
             if v != want:
                 fails.append((c, "recursion to the frame limit with a handler in every frame: expected exactly one handler to run, got [deep enough, catch blocks run, finally count consistent] = %s" % v)); continue
+        if c["name"].startswith("tail-discard-then-call") and c["id"].split(".")[-2] == "0":
+            v = vlib.sexp_str(r[1]) if k == "ok" else vlib.sexp_str(r)
+            if v != "(a (i 7) (i 42) (i 7) (i 43))":
+                fails.append((c, "after a frame re-used by a discarded self call was left by a failure, functions called later in the same run must return their values: expected [7, 42, 7, 43], got %s" % v[:300])); continue
         if c["name"].startswith("child-") and c["id"].split(".")[-2] == "0":
             v = vlib.sexp_str(r[1]) if k == "ok" else vlib.sexp_str(r)
             if v != "(a (i 7) (i 8) (i 2) (i 3) (i 3))":
@@ -130,7 +140,7 @@ def run(rep, br, proofs, rng, tier):
         rep.violation({"property": "C06", "kind": "oracle", "why": why, "case": c["line"][:2000], "script": c["src"]})
     rep.coverage.update({
         "evaluations": len(cases), "distinct_nontrivial": sum(v for k, v in classes.items() if k == "err"),
-        "rule": "programs built to fail (zero division and remainder, negative shifts, bad indexes and slices, calls of non-callables, failing builtins, Go callbacks that panic or index out of range, recursion to depth 1000..1025 and unbounded, frames with 1..250 locals recursing to the value-stack limit with and without a callback panic at the edge, array literals and calls of 2030..5000 elements around the 2048-slot stack, variadic calls at depth, throws and panics inside catch and finally, Go panics, errors and stack overflow inside a script function which the host calls back through a pooled or unpooled Invoker, also nested), each bare, inside try/catch, try/finally, try/catch/finally and inside a called function, with and without arguments; every use of a parameter (return, index, selector, call, operators, builtins, for-in, spread, throw, assignment through it) x arguments of every type incl. host-side objects in unusual states (ObjectPtr and SyncMap without a value, a Function without a Go function, an empty RuntimeError, containers of those); run with recovery enabled under recover(), followed by a known script on the same VM compared with a new VM; non-trivial = the run ended with a uGO error",
+        "rule": "programs built to fail (zero division and remainder, negative shifts, bad indexes and slices, calls of non-callables, failing builtins, Go callbacks that panic or index out of range, recursion to depth 1000..1025 and unbounded, frames with 1..250 locals recursing to the value-stack limit with and without a callback panic at the edge, array literals and calls of 2030..5000 elements around the 2048-slot stack, variadic calls at depth, throws and panics inside catch and finally, frames re-used by a discarded self call in tail position and left by a panic or error, Go panics, errors and stack overflow inside a script function which the host calls back through a pooled or unpooled Invoker, also nested), each bare, inside try/catch, try/finally, try/catch/finally and inside a called function, with and without arguments; every use of a parameter (return, index, selector, call, operators, builtins, for-in, spread, throw, assignment through it) x arguments of every type incl. host-side objects in unusual states (ObjectPtr and SyncMap without a value, a Function without a Go function, an empty RuntimeError, containers of those); run with recovery enabled under recover(), followed by a known script on the same VM compared with a new VM; non-trivial = the run ended with a uGO error",
         "samples": [cases[0]["src"], cases[-1]["src"]],
         "outcome_classes": classes, "oracle_failures": len(fails)})
 
